@@ -33,60 +33,41 @@ func NewResolver(db shared.DBNodeMap, c Config) Resolver {
 // Resolve resolves the current database
 // Deprecated: Deprecated in favor of using Resolve function directly
 func (r Resolver) Resolve() error {
-	var err error
-	for name := range r.db {
-		if err = r.resolveNode(name, 0); err != nil {
-			return err
-		}
-	}
-	return nil
+	_, err := Resolve(r.config, r.db)
+	return err
 }
 
-func (r Resolver) resolveNode(name string, level int) error {
-	if level >= r.config.MaxDepth {
-		return fmt.Errorf("maximum resolution depth reached")
-	}
-
-	node, exists := r.db[name]
-	if !exists {
-		return nil
-	}
-
-	nel := shared.NewElements()
-
-	for _, e := range node.Elements {
-		if err := r.resolveNode(e.Name, level+1); err != nil {
-			return err
-		}
-		foundNode, exists := r.db[e.Name]
-		if exists {
-			nel.SumMerge(foundNode.Elements, e.Value)
-		} else {
-			var tm shared.Elements
-			tm.Add(e.Name, e.Value)
-			nel.SumMerge(tm, 1)
-		}
-	}
-	nel.Sort()
-	r.db[name].Elements = nel
-	return nil
-}
-
-func resolveNode(maxDepth int, db shared.DBNodeMap, name string, level int) error {
+// resolveNode resolves the node called name, which is reached through level
+// references, and returns the length of the longest chain of references that
+// starts at it. The lengths of finished nodes are kept in depths, so that the
+// depth limit trips for a chain no matter which of its nodes is visited first.
+func resolveNode(maxDepth int, db shared.DBNodeMap, depths map[string]int, name string, level int) (int, error) {
 	if level >= maxDepth {
-		return fmt.Errorf("maximum resolution depth reached")
+		return 0, fmt.Errorf("maximum resolution depth reached")
 	}
 
 	node, exists := db[name]
 	if !exists {
-		return nil
+		return 0, nil
+	}
+
+	if depth, done := depths[name]; done {
+		if level+depth >= maxDepth {
+			return 0, fmt.Errorf("maximum resolution depth reached")
+		}
+		return depth, nil
 	}
 
 	nel := shared.NewElements()
+	depth := 0
 
 	for _, e := range node.Elements {
-		if err := resolveNode(maxDepth, db, e.Name, level+1); err != nil {
-			return err
+		d, err := resolveNode(maxDepth, db, depths, e.Name, level+1)
+		if err != nil {
+			return 0, err
+		}
+		if d+1 > depth {
+			depth = d + 1
 		}
 		if foundNode, exists := db[e.Name]; exists {
 			nel.SumMerge(foundNode.Elements, e.Value)
@@ -98,12 +79,14 @@ func resolveNode(maxDepth int, db shared.DBNodeMap, name string, level int) erro
 	}
 	nel.Sort()
 	db[name].Elements = nel
-	return nil
+	depths[name] = depth
+	return depth, nil
 }
 
 func Resolve(c Config, db shared.DBNodeMap) (shared.DBNodeMap, error) {
+	depths := make(map[string]int, len(db))
 	for name := range db {
-		if err := resolveNode(c.MaxDepth, db, name, 0); err != nil {
+		if _, err := resolveNode(c.MaxDepth, db, depths, name, 0); err != nil {
 			return db, err
 		}
 	}
